@@ -19,6 +19,10 @@ SELFTEST_MODE=ok /venv/bin/python run.py C99 --replay $rp > $tmp/r.txt 2>&1; [ $
 
 rc=$(run harness_error); [ "$rc" = 2 ] && ! grep -q "^VIOLATION" $tmp/out.txt && echo "ok   : oracle bug -> exit 2, no VIOLATION" || { echo "FAIL : harness error rc=$rc"; fail=1; }
 
+rc=$(run abort); n=$(grep -c "^VIOLATION property=C99 replay=" $tmp/out.txt)
+[ "$rc" = 1 ] && [ "$n" -ge 1 ] && echo "ok   : input on which the code kills the interpreter (shard dies, replay dies too) -> VIOLATION with that input" || { echo "FAIL : abort rc=$rc n=$n"; fail=1; }
+rc=$(run abort_once); [ "$rc" = 2 ] && ! grep -q "^VIOLATION" $tmp/out.txt && echo "ok   : shard death that does not reproduce on replay -> exit 2, no VIOLATION" || { echo "FAIL : abort_once rc=$rc"; fail=1; }
+
 # known-finding protocol: temporary findings file with a witness for kind c
 mkdir -p $tmp/known
 cat > $tmp/known/w.json <<J
